@@ -99,6 +99,10 @@ no_bytes_method:
 		if size < 0 {
 			return nil, ExceptionNewf(ValueError, "negative count")
 		}
+		if size > maxBytesSize {
+			// make() would panic rather than return an error
+			return nil, ExceptionNewf(MemoryError, "cannot allocate %d bytes", size)
+		}
 		return make(Bytes, size), nil
 	}
 
@@ -109,6 +113,9 @@ no_bytes_method:
 
 	return BytesFromObject(x)
 }
+
+// The largest bytes object bytes(n) will try to make
+const maxBytesSize = 1 << 40
 
 // Converts an object into bytes
 func BytesFromObject(x Object) (Bytes, error) {
